@@ -692,12 +692,11 @@ func init() {
 		ID: "C11",
 		Rule: "case = (flavor DAG of 1..5 flavors with up to 3 components each, variables/accessors/init keywords per flavor, " +
 			"assignment of primary/:before/:after/whopper methods on messages :m :n :init and accessor names, a history). " +
-			"First block: every admissible order of the forms of small template hierarchies (siblings, chain, two users of one base, diamond, triple); " +
-			"then seeded DAGs with seeded admissible orders (uniform / methods early / flavors first), redefinitions, instances made and messages sent in mid-history. " +
+			"First block (3716 cases): every admissible order of the 5..7 forms of template hierarchies (siblings, reversed siblings, chain, two users of one base, diamond, triple, deep sibling, crossed pairs) for each daemon kind, mixed kinds, :init and accessor messages; " +
+			"then 12000 (quick) / 150000 (thorough) seeded DAGs with seeded admissible orders (uniform / methods early / flavors first), redefinitions, instances made and messages sent in mid-history. " +
 			"Every flavor of a case is observed at the end through send and through BoundReceive. " +
 			"distinct = distinct case JSON; non-trivial = at least one observed send combined daemons of 2 or more flavors. " +
-			"avoided: the bare :gettable/:settable/:initable options on flavors with components, variables without a default that shadow a default, " +
-			"3 or more whoppers on one message (kept to 1 case in 8)",
+			"not generated: the bare :gettable/:settable/:initable options on flavors with components, variables without a default that shadow a default",
 		N:        nCases,
 		Gen:      gen,
 		Exec:     exec,
